@@ -69,6 +69,12 @@ func solve(file string, timeoutS int, all bool) SolveResult {
 					break
 				}
 			}
+			if strings.Contains(string(out), "(error ") {
+				// a malformed query must never count as an answer
+				if !(first == "unsat" && strings.Count(string(out), "(error ") == 1 && strings.Contains(string(out), "model is not available")) {
+					first = "error"
+				}
+			}
 			if first == "" {
 				if c.Err() != nil {
 					first = "timeout"
